@@ -131,7 +131,7 @@ impl CryptoRng for TestRng {}
 
 pub type LibResult<T> = Result<T, &'static str>;
 
-pub trait PkObj: Send + Sync {
+pub trait PkObj: Send {
     fn verify(&self, m: &[u8], sig: &[u8], ctx: &[u8], mode: Mode) -> bool;
     fn internal_verify(&self, m: &[u8], sig: &[u8], ctx: &[u8]) -> bool;
     fn to_bytes(&self) -> Vec<u8>;
@@ -141,7 +141,7 @@ pub trait PkObj: Send + Sync {
     fn assign_from(&mut self, src: &dyn PkObj);
 }
 
-pub trait SkObj: Send + Sync {
+pub trait SkObj: Send {
     fn sign(&self, rng: &mut TestRng, m: &[u8], ctx: &[u8], mode: Mode) -> LibResult<Vec<u8>>;
     fn sign_os(&self, m: &[u8], ctx: &[u8], mode: Mode) -> LibResult<Vec<u8>>;
     fn internal_sign(&self, m: &[u8], ctx: &[u8], rnd: [u8; 32]) -> LibResult<Vec<u8>>;
@@ -190,7 +190,9 @@ pub trait Lib: Send + Sync {
     /// C16: build a key of the given kind/provenance from `xi`, drop it in place, observe its storage.
     /// `misalign`: place the object at an address that is a multiple of its alignment but not of twice its alignment.
     /// `boxed`: the object is owned by a `Box` that is dropped (observed by the allocator hook) instead.
-    fn drop_probe(&self, private: bool, prov: Provenance, xi: &[u8; 32], structured: Option<&[u8]>, misalign: bool, boxed: bool) -> Option<DropProbe>;
+    /// `pre`: what is done with the object before it is dropped (bit 0: derive the public key from a private key;
+    /// bit 1: sign / verify once; bit 2: serialise a clone).
+    fn drop_probe(&self, private: bool, prov: Provenance, xi: &[u8; 32], structured: Option<&[u8]>, misalign: bool, boxed: bool, pre: u8) -> Option<DropProbe>;
 
     // ---- hooks (parameter-set generic kernels) ----
     fn hk_sig_decode(&self, sig: &[u8]) -> LibResult<(Vec<u8>, Vec<P32>, Vec<P32>)>;
@@ -450,7 +452,7 @@ macro_rules! lib_impl {
                 $m::dudect_keygen_sign_with_rng(rng, m).map(|s| s.to_vec())
             }
 
-            fn drop_probe(&self, private: bool, prov: Provenance, xi: &[u8; 32], structured: Option<&[u8]>, misalign: bool, boxed: bool) -> Option<DropProbe> {
+            fn drop_probe(&self, private: bool, prov: Provenance, xi: &[u8; 32], structured: Option<&[u8]>, misalign: bool, boxed: bool, pre: u8) -> Option<DropProbe> {
                 let (pk, sk) = $m::KG::keygen_from_seed(xi);
                 if private {
                     let key: $m::PrivateKey = match (prov, structured) {
@@ -460,6 +462,16 @@ macro_rules! lib_impl {
                         (Provenance::Cloned, _) => sk.clone(),
                         (Provenance::Derived, _) => return None,
                     };
+                    if pre & 1 != 0 {
+                        let _ = key.get_public_key();
+                    }
+                    if pre & 2 != 0 {
+                        let mut rng = TestRng::replay(&[7u8; 32]);
+                        let _ = key.try_sign_with_rng(&mut rng, b"used before drop", &[]);
+                    }
+                    if pre & 4 != 0 {
+                        let _ = key.clone().into_bytes();
+                    }
                     if boxed { observe_boxed(key) } else { Some(observe(key, misalign)) }
                 } else {
                     let key: $m::PublicKey = match (prov, structured) {
@@ -469,6 +481,12 @@ macro_rules! lib_impl {
                         (Provenance::Cloned, _) => pk.clone(),
                         (Provenance::Derived, _) => sk.get_public_key(),
                     };
+                    if pre & 2 != 0 {
+                        let _ = key.verify(b"used before drop", &[0x11u8; $m::SIG_LEN], &[]);
+                    }
+                    if pre & 4 != 0 {
+                        let _ = key.clone().into_bytes();
+                    }
                     if boxed { observe_boxed(key) } else { Some(observe(key, misalign)) }
                 }
             }
